@@ -3,6 +3,7 @@
 package agentp
 
 import (
+	"encoding/base64"
 	"fmt"
 	"strings"
 	"testing"
@@ -11,6 +12,7 @@ import (
 	"github.com/hashicorp/serf/serf"
 	"pgregory.net/rapid"
 
+	"verif/internal/node"
 	"verif/internal/vkit"
 )
 
@@ -43,6 +45,7 @@ type c24Op struct {
 
 type c24Case struct {
 	Key string  `json:"key"`
+	Enc bool    `json:"enc,omitempty"` // the agent's Serf has a keyring (key commands really work)
 	Ops []c24Op `json:"ops"`
 }
 
@@ -50,6 +53,7 @@ var c24Plain = []string{
 	"event", "event", "tags", "tags", "join", "query", "stream", "monitor", "stop", "respond",
 	"members", "members", "members-filtered", "stats", "stats", "get-coordinate", "list-keys",
 	"install-key", "use-key", "remove-key", "force-leave", "leave", "bogus", "",
+	"force-leave", "install-key",
 }
 
 var c24HandshakeVersions = []int64{1, 0, 2, -1, 1<<31 - 1}
@@ -69,14 +73,75 @@ func c24AuthKey(key string, v int) string {
 		return "x"
 	case 4:
 		return key + " "
-	default:
+	case 5:
 		return strings.ToUpper(key) + "!"
+	case 6: // equal under case folding only
+		return c24SwapCase(key)
+	case 7:
+		return " " + key
+	case 8: // proper suffix
+		if len(key) > 1 {
+			return key[1:]
+		}
+		return "y"
+	case 9: // the key is a suffix of what is presented
+		return "x" + key
+	case 10:
+		return key + key
+	case 11: // same length, first byte differs
+		if len(key) > 0 {
+			return c24Flip(key[:1]) + key[1:]
+		}
+		return "z"
+	case 12: // same length, last byte differs
+		if len(key) > 0 {
+			return key[:len(key)-1] + c24Flip(key[len(key)-1:])
+		}
+		return "z"
+	case 13:
+		return key + "\x00"
+	case 14: // same length, a middle byte differs
+		if len(key) > 2 {
+			return key[:len(key)/2] + c24Flip(key[len(key)/2:len(key)/2+1]) + key[len(key)/2+1:]
+		}
+		return key + "\t"
+	default:
+		return strings.TrimSpace(key) + "\n"
 	}
 }
 
+const c24KeyVariants = 16
+
+func c24SwapCase(s string) string {
+	b := []byte(s)
+	for i, c := range b {
+		switch {
+		case c >= 'a' && c <= 'z':
+			b[i] = c - 32
+		case c >= 'A' && c <= 'Z':
+			b[i] = c + 32
+		}
+	}
+	return string(b)
+}
+
+// c24Flip maps a one-byte string to another one-byte ASCII string.
+func c24Flip(s string) string {
+	if s == "#" {
+		return "$"
+	}
+	return "#"
+}
+
+// c24Keys: configured keys. Next to plain ones: mixed case with an inner and a
+// trailing blank, a blank only, non-ASCII, and one longer than any fixed-size
+// digest or buffer a comparison might go through.
+var c24Keys = []string{"", "s3cret", "s3cret", "k", "S3cret Key ", " ", "pässwörd", "0123456789abcdef0123456789abcdef0123456789abcdef0123456789abcdefXYZ"}
+
 func genC24(t *rapid.T) c24Case {
 	var c c24Case
-	c.Key = rapid.SampledFrom([]string{"", "s3cret", "s3cret", "k"}).Draw(t, "key")
+	c.Key = rapid.SampledFrom(c24Keys).Draw(t, "key")
+	c.Enc = rapid.IntRange(0, 2).Draw(t, "enc") == 0
 	n := rapid.IntRange(3, 24).Draw(t, "n")
 	// the generator mirrors the expected connection state only to bias the
 	// draw towards sequences that get somewhere; the body never trusts it
@@ -106,9 +171,9 @@ func genC24(t *rapid.T) c24Case {
 		case isAuth:
 			op.Cmd = "auth"
 			if c.Key != "" && s.hs && !s.authed {
-				op.Var = rapid.SampledFrom([]int{0, 0, 0, 1, 2, 3, 4, 5}).Draw(t, "keyvar")
+				op.Var = rapid.SampledFrom([]int{0, 0, 0, 0, 0, 0, 1, 2, 3, 4, 5, 6, 7, 8, 9, 10, 11, 12, 13, 14, 15}).Draw(t, "keyvar")
 			} else {
-				op.Var = rapid.IntRange(0, 5).Draw(t, "keyvar")
+				op.Var = rapid.IntRange(0, c24KeyVariants-1).Draw(t, "keyvar")
 			}
 		default:
 			op.Cmd = rapid.SampledFrom(c24Plain).Draw(t, "cmd")
@@ -194,6 +259,7 @@ type c24Conn struct {
 	authed bool
 	fresh  bool
 	dead   bool
+	lastOK bool // the last reply read on this connection was a success header
 	log    []string
 }
 
@@ -202,8 +268,9 @@ type c24Session struct {
 	key   string
 	r     *rig
 	conns [3]*c24Conn
-	sent  []*c24Sent
-	all   []*c24Conn
+	sent   []*c24Sent
+	all    []*c24Conn
+	ghosts map[string]bool
 }
 
 func (s *c24Session) gateClosed(cn *c24Conn) bool {
@@ -258,10 +325,21 @@ func (s *c24Session) request(i int, op c24Op) (vals []any, snt *c24Sent) {
 		body = map[string]any{"Tags": map[string]string{}, "Status": "", "Name": ".*"}
 	case "get-coordinate":
 		body = map[string]any{"Node": "agent0"}
-	case "install-key", "use-key", "remove-key":
+	case "install-key":
+		// a key unique to the request; it lands in the keyring only when the
+		// agent runs with encryption (c.Enc), otherwise the command fails
+		k := base64.StdEncoding.EncodeToString([]byte(fmt.Sprintf("c24-key-%08d", i)))
+		body = map[string]any{"Key": k}
+		snt.effect = "key:" + k
+	case "use-key", "remove-key":
 		body = map[string]any{"Key": "AAAAAAAAAAAAAAAAAAAAAA=="}
 	case "force-leave":
-		body = map[string]any{"Node": "ghost", "Prune": false}
+		// the target is a member the agent holds as failed (created here, by
+		// playing memberlist): an effective force-leave turns it into "left"
+		name := fmt.Sprintf("ghost%d", i)
+		s.makeFailed(name, i)
+		body = map[string]any{"Node": name, "Prune": false}
+		snt.effect = "fleave:" + name
 	}
 	vals = []any{hdr(op.Cmd, seq)}
 	snt.wellBody = op.Body == 0 || op.Body == 4
@@ -297,6 +375,18 @@ func (s *c24Session) request(i int, op c24Op) (vals []any, snt *c24Sent) {
 		snt.smuggled = true
 	}
 	return vals, snt
+}
+
+// makeFailed makes the agent's Serf hold a member of that name as failed.
+func (s *c24Session) makeFailed(name string, i int) {
+	if s.ghosts[name] {
+		return
+	}
+	s.ghosts[name] = true
+	ed := s.r.agent.Serf().VerifEventDelegate()
+	n := node.MLNode(name, fmt.Sprintf("10.9.%d.%d", i/200, 1+i%200), 7946, nil, 5, 5)
+	ed.NotifyJoin(n)
+	ed.NotifyLeave(n)
 }
 
 func (s *c24Session) dial(slot int) *c24Conn {
@@ -376,7 +466,12 @@ func (s *c24Session) await(cn *c24Conn, snt *c24Sent, mon *vkit.Monitor) (ok, cl
 }
 
 func bodyC24(c c24Case, x *vkit.Ctx) {
-	r, err := newRig(rigOpts{AuthKey: c.Key, Loopback: true})
+	ro := rigOpts{AuthKey: c.Key, Loopback: true}
+	if c.Enc {
+		ro.Keyring = []byte("c24-primary-key!")
+		x.Label("keyring")
+	}
+	r, err := newRig(ro)
 	if err != nil {
 		x.Inconclusive("rig: " + err.Error())
 		return
@@ -384,7 +479,7 @@ func bodyC24(c c24Case, x *vkit.Ctx) {
 	defer r.close()
 	mon := vkit.StartMonitor()
 	defer mon.Stop()
-	s := &c24Session{x: x, key: c.Key, r: r}
+	s := &c24Session{x: x, key: c.Key, r: r, ghosts: map[string]bool{}}
 	defer func() {
 		for _, cn := range s.all {
 			cn.c.close()
@@ -435,24 +530,34 @@ func bodyC24(c c24Case, x *vkit.Ctx) {
 				return
 			}
 			if closed && !snt.replied {
-				if !first {
+				owed := snt.gated && op.Body == 0 && op.Cmd != "handshake" && op.Cmd != "auth"
+				if !first && !(owed && cn.lastOK) {
 					// the agent had closed the connection before reading this
 					// request (closure is not asserted): try once on a fresh one
 					x.Label("redial")
 					continue
 				}
-				owed := snt.gated && op.Body == 0 && op.Cmd != "handshake" && op.Cmd != "auth"
+				// Either the first request on the connection, or the last thing
+				// the agent said on it was a success reply (a handshake it
+				// accepted, say): nothing was rejected there, so the agent had
+				// no reason to hang up before reading this request. It read it,
+				// refused it (nothing else explains the closure) and owes the
+				// error reply.
+				if owed && !first {
+					x.Label("closed-after-success")
+				}
 				if owed {
 					if isReset(cn.c.readErr) {
 						x.Inconclusive("connection reset before the reply could be read")
 						return
 					}
-					x.Violationf("no-error-reply", "op %d (%s): first request on a connection, rejected by the gate, connection closed without any error reply (transcript %v)", i, op.Cmd, cn.log)
+					x.Violationf("no-error-reply", "op %d (%s): sent while the gate was closed (first request on the connection: %v; otherwise right after a success reply), connection closed without any error reply (transcript %v)", i, op.Cmd, first, cn.log)
 					return
 				}
 			}
 			// model transitions and per-reply checks
 			if snt.replied {
+				cn.lastOK = snt.replyErr == ""
 				switch {
 				case op.Cmd == "handshake":
 					if snt.replyErr == "" {
@@ -579,6 +684,18 @@ func bodyC24(c c24Case, x *vkit.Ctx) {
 	for _, d := range r.nw.Dials() {
 		dials[d.To] = true
 	}
+	ring := map[string]bool{}
+	if kr := r.conf.MemberlistConfig.Keyring; kr != nil {
+		for _, k := range kr.GetKeys() {
+			ring[base64.StdEncoding.EncodeToString(k)] = true
+		}
+	}
+	gone := map[string]bool{} // members the agent holds as leaving / left
+	for _, m := range r.agent.Serf().Members() {
+		if m.Status == serf.StatusLeft || m.Status == serf.StatusLeaving {
+			gone[m.Name] = true
+		}
+	}
 	leaveGated, leaveOpen := false, false
 	for _, snt := range s.sent {
 		kind, arg, _ := strings.Cut(snt.effect, ":")
@@ -597,6 +714,10 @@ func bodyC24(c c24Case, x *vkit.Ctx) {
 			seen = dials[arg]
 		case "query":
 			seen = sawQuery(evs, arg) != nil
+		case "key":
+			seen = ring[arg]
+		case "fleave":
+			seen = gone[arg]
 		case "leave":
 			if snt.gated {
 				leaveGated = true
